@@ -8,3 +8,5 @@ import Photon.Model.Iov
 import Photon.Properties.C14
 import Photon.Model.RangeLock
 import Photon.Properties.C18
+import Photon.Model.Sync
+import Photon.Properties.C04
